@@ -32,10 +32,16 @@ ScenarioWhys(r) ==
       p \in { q \in P : ~Acquired(q) /\ q.kill_ts < 0 /\ LockError(q)
                         /\ ~\E h \in P : h.p # q.p /\ Acquired(h) /\ Overlap(h.spawn_ts, h.exit_ts, q.spawn_ts, q.exit_ts) } }
 
+\* waited for the lock: reached its acquisition attempt while another invocation definitely held the lock for at least
+\* another half second (the harness reports the duration; the bind itself takes microseconds), and still acquired
+Queued(r) ==
+  { "C14:an invocation that tried to acquire while another held the lock waited for it instead of failing" :
+      p \in { q \in RangeOf(r.procs) : Acquired(q) /\ q.held_after_try_ms >= 500 } }
+
 VARIABLE l
 Init == l = 1
 Next == /\ l <= Len(Rec)
-        /\ \A w \in ScenarioWhys(Rec[l]) : PrintT(<<"FAIL", ToJson([i |-> l, why |-> w])>>)
+        /\ \A w \in ScenarioWhys(Rec[l]) \cup Queued(Rec[l]) : PrintT(<<"FAIL", ToJson([i |-> l, why |-> w])>>)
         /\ l' = l + 1
 Spec == Init /\ [][Next]_l
 Done == l = Len(Rec) + 1 => PrintT(<<"DONE", Len(Rec)>>)
